@@ -106,9 +106,7 @@ Fixpoint exec (d : db) (ops : list op) : list ob * db :=
   end.
 End Run.
 
-Fixpoint strip_rev (fs : files) : files :=
-  match fs with None :: t => strip_rev t | _ => fs end.
-Definition strip (fs : files) : files := rev (strip_rev (rev fs)).
+Definition strip (fs : files) : files := strip_none fs.
 (* observed directory: per file number (length, CRC-32C) or missing *)
 Fixpoint files_eqb (a : files) (b : list (option (N * N))) : bool :=
   match a, b with
